@@ -1,13 +1,16 @@
 package harness
 
 import (
+	"bytes"
 	"crypto/ed25519"
 	"crypto/rand"
 	"fmt"
+	"io"
 	"net"
 	"os"
 	"strings"
 	"sync"
+	"sync/atomic"
 	"time"
 
 	"github.com/mimecast/dtail/internal/config"
@@ -70,6 +73,16 @@ func (l *vListener) Accept() (net.Conn, error) {
 func (l *vListener) Close() error   { return nil }
 func (l *vListener) Addr() net.Addr { return l.addr }
 
+const c14sDecisionHook = "internal/server.stats.serverLimitExceeded:exit"
+
+// bannerConn replays the bytes the harness read to see whether the socket was accepted.
+type bannerConn struct {
+	net.Conn
+	r io.Reader
+}
+
+func (b *bannerConn) Read(p []byte) (int, error) { return b.r.Read(p) }
+
 type c14sParams struct {
 	Conns int
 	Max   int
@@ -103,7 +116,18 @@ func c14sScenario(p c14sParams) *explore.Scenario {
 			}
 			return ""
 		}
+		// the reported count at the moment of every accept-time decision (the accept loop is sequential, so the
+		// k-th decision is about the k-th socket)
+		var countAtDecision []int
+		vrt.OnHook[c14sDecisionHook] = func(interface{}) {
+			if srv != nil {
+				countAtDecision = append(countAtDecision, srv.VerifConnections())
+			}
+		}
+		defer delete(vrt.OnHook, c14sDecisionHook)
+		gotBanner := make([]int32, p.Conns)
 		res := vrt.Run(cfg, func() {
+			countAtDecision = nil
 			args := DefaultArgs()
 			args.Logger = "none"
 			args.LogLevel = "error"
@@ -138,10 +162,23 @@ func c14sScenario(p c14sParams) *explore.Scenario {
 					user = "mallory"
 				}
 				clients.Add(1)
+				i := i
+				atomic.StoreInt32(&gotBanner[i], 0)
 				go func() {
 					defer clients.Done()
+					// a socket the accept loop turns away is closed before the server's SSH banner
+					first := make([]byte, 64)
+					cc.SetReadDeadline(time.Now().Add(60 * time.Second))
+					n, _ := cc.Read(first)
+					cc.SetReadDeadline(time.Time{})
+					if n == 0 {
+						cc.Close()
+						return
+					}
+					atomic.StoreInt32(&gotBanner[i], 1)
+					pc := &bannerConn{Conn: cc, r: io.MultiReader(bytes.NewReader(first[:n]), cc)}
 					cfg := &ssh.ClientConfig{User: user, Auth: []ssh.AuthMethod{ssh.PublicKeys(signer)}, HostKeyCallback: ssh.InsecureIgnoreHostKey(), Timeout: 20 * time.Second}
-					c, _, _, err := ssh.NewClientConn(cc, "harness", cfg)
+					c, _, _, err := ssh.NewClientConn(pc, "harness", cfg)
 					if err == nil {
 						c.Close()
 					}
@@ -158,6 +195,13 @@ func c14sScenario(p c14sParams) *explore.Scenario {
 			vrt.Sleep("settle", time.Second)
 			if n := srv.VerifConnections(); n != 0 {
 				viol = fmt.Sprintf("every connection has ended but the server still reports %d open connections", n)
+			}
+			// "accepts a new one whenever fewer are open": a socket may be turned away at accept only if the
+			// reported count had reached MaxConnections at that moment
+			for k := 0; k < p.Conns && k < len(countAtDecision) && viol == ""; k++ {
+				if atomic.LoadInt32(&gotBanner[k]) == 0 && countAtDecision[k] < p.Max {
+					viol = fmt.Sprintf("socket %d was turned away at accept although the server reported only %d of %d connections open at that moment", k, countAtDecision[k], p.Max)
+				}
 			}
 			out = fmt.Sprintf("started=%d maxcount=%d", started, maxSeen)
 		})
@@ -182,7 +226,7 @@ func init() {
 		ReportAs: "C14",
 		Level:    "model_checking",
 		Rule: "schedule exploration of the server's real connection accounting: the server's real accept loop runs on a listener whose Accept is a visible operation (the harness feeds it natively accepted sockets), with the real handleConnection per socket for 3-4 sockets with MaxConnections 1-2; each socket's SSH client is a native goroutine that " +
-			"hand-shakes (one with bad credentials in some scenarios) and closes; all schedules within 2 deviations of the server-side goroutines (mutex operations of the counter are scheduling points); invariant on every state: reported open connections <= MaxConnections and >= 0; at the end 0",
+			"hand-shakes (one with bad credentials in some scenarios) and closes; all schedules within 2 deviations of the server-side goroutines (mutex operations of the counter are scheduling points); invariant on every state: reported open connections <= MaxConnections and >= 0; at the end 0; a socket is turned away at accept only when the reported count had reached MaxConnections at that moment",
 		Assumptions: []string{
 			"x/crypto/ssh runs natively inside the controlled goroutines; every native blocking call completes without the help of another controlled goroutine because the client side is free running",
 		},
@@ -204,6 +248,8 @@ func init() {
 					switch {
 					case strings.Contains(msg, "counts"):
 						return "more-connections-counted-than-MaxConnections"
+					case strings.Contains(msg, "turned away"):
+						return "refused-although-slots-free"
 					case strings.Contains(msg, "still reports"):
 						return "slot-not-given-back"
 					case strings.HasPrefix(msg, "panic"):
